@@ -48,7 +48,7 @@ def l1_primitives():
         rt(S.write_short_int, S.read_short_int, v)
     for v in [0, 1, -1, 2, -2, 65535, -65535, 65536, -65536, (1 << 31) - 1, -((1 << 31) - 1)]:
         rt(S.write_int_neg, S.read_int_neg, v)
-    strs = ["", "a", "NA", "chr1", "x" * 255, "x" * 256, "x" * 65534]
+    strs = ["", "a", "NA", "chr1", "x" * 255, "x" * 256, "x" * 65534, "gène", "β-cell", "細胞1", "é" * 300]
     for v in strs + ["x" * 65535]:
         rt(S.write_string, S.read_string, v)
     for v in strs + [None]:
